@@ -235,7 +235,16 @@ func writeJSONServerState(stateDir string, js *jsonServerState) error {
 	if encoded, err = json.Marshal(js); err != nil {
 		return err
 	}
-	return os.WriteFile(path.Join(stateDir, stateFile), encoded, 0o600)
+
+	// Write to a temporary file and rename it over the state file, so that
+	// being killed at any point leaves either the old or the new state
+	// behind, never a truncated file (which would lose the identity).
+	fPath := path.Join(stateDir, stateFile)
+	tmpPath := fPath + ".tmp"
+	if err = os.WriteFile(tmpPath, encoded, 0o600); err != nil {
+		return err
+	}
+	return os.Rename(tmpPath, fPath)
 }
 
 func newBridgeFile(stateDir string, st *obfs4ServerState) error {
